@@ -100,7 +100,7 @@ def _shard(arg):
     seed, shard, n_examples, steps = arg
     rec = common.Recorder()
     holder = {}
-    M = machines.make_machine("C01Machine", Checker, rec, holder, SELF_MERGE=True, CFG=CFG, N=4, VALUES=vs.multiplicities(True))
+    M = machines.make_machine("C01Machine", Checker, rec, holder, SELF_MERGE=True, CFG=CFG, N=4, VALUES=vs.multiplicities(True, huge=True))
     common.run_machine(M, common.derive_seed(seed, "C01", shard), n_examples, steps, holder, rec, retry=lambda c_: machines.replay_trace(c_, Checker))
     return rec
 
